@@ -6,6 +6,8 @@
 //      at 10^(e+1) reads back as v (convexity of the rounding interval makes these two enough)
 //  (4) closest: if (D+-1)*10^e also reads back as v, v is at least as close to D*10^e
 //      (exact big-integer comparison; exact ties accept either)
+#include <xmmintrin.h>
+
 #include <cmath>
 #include <memory>
 
@@ -324,8 +326,55 @@ int main(int argc, char** argv) {
     check_double(bits, ctx, (bits & 7) == 0);
   };
 
+  // D7: the floating-point ENVIRONMENT. Printing works on the bit pattern; a process that runs with denormals-are-zero /
+  // flush-to-zero (every program linked with -ffast-math) or a non-default rounding mode must get the same text
+  vr::Family d7;
+  d7.name = "D7_fp_environment";
+  d7.count = (uint64_t)pats.size() * 6 * 2;
+  d7.group = "D7";
+  d7.chunk = 1024;
+  d7.rule = "every significand pattern at biased exponents 0 (subnormal), 1, 2, 1023, 1075, 2046, both signs, printed under MXCSR = default, DAZ|FTZ, round-toward-zero, round-up: F64toa and Dump() must give the text of the default environment (which the other families check)";
+
   vr::CheckFn check = [&](const vr::Family& f, uint64_t idx, vr::Ctx& ctx) {
     const std::string& nm = f.name;
+    if (nm[1] == '7') {
+      static const unsigned bes[6] = {0, 1, 2, 1023, 1075, 2046};
+      uint64_t sign = idx & 1;
+      idx >>= 1;
+      uint64_t be = bes[idx % 6];
+      uint64_t p = pats[idx / 6];
+      uint64_t bits = (sign << 63) | (be << 52) | p;
+      double v = dbl_of(bits);
+      if (ctx.want_sample) {
+        char b[40];
+        snprintf(b, sizeof b, "%016llx", (unsigned long long)bits);
+        ctx.sample(b);
+      }
+      ctx.eval();
+      ctx.nontriv();
+      char ref_out[64];
+      size_t ref_n = (size_t)internal::F64toa(ref_out, v);
+      const unsigned saved = _mm_getcsr();
+      static const unsigned envs[3] = {0x8040u /* DAZ | FTZ */, 0x6000u /* round toward zero */, 0x4000u /* round up */};
+      static const char* envn[3] = {"DAZ|FTZ", "round-toward-zero", "round-up"};
+      for (int e = 0; e < 3; e++) {
+        char out[64];
+        std::string dump;
+        _mm_setcsr((saved & ~0x6000u) | envs[e]);
+        size_t n = (size_t)internal::F64toa(out, v);
+        {
+          Document d;
+          d.SetDouble(v);
+          dump = d.Dump();
+        }
+        _mm_setcsr(saved);
+        if (n != ref_n || std::memcmp(out, ref_out, n) != 0)
+          ctx.violation("ftoa_fp_environment", "ftoa_fp_environment", std::string(ref_out, ref_n), "bits=%016llx: F64toa prints '%.*s' under %s but '%.*s' in the default environment", (unsigned long long)bits, (int)n, out, envn[e], (int)ref_n, ref_out);
+        else if (dump != std::string(ref_out, ref_n))
+          ctx.violation("ftoa_fp_environment", "ftoa_fp_environment_dump", std::string(ref_out, ref_n), "bits=%016llx: Dump() gives '%s' under %s but F64toa gives '%.*s' in the default environment", (unsigned long long)bits, dump.c_str(), envn[e], (int)ref_n, ref_out);
+      }
+      return;
+    }
     if (nm[1] == '5') {
       int k = K5[idx % NK5];
       idx /= NK5;
@@ -432,7 +481,7 @@ int main(int argc, char** argv) {
     }
   };
 
-  std::vector<vr::Family> fams = {d1, d2, d3, d3b, d4, d5, d6};
+  std::vector<vr::Family> fams = {d1, d2, d3, d3b, d4, d5, d6, d7};
   if (args.replay) return R.replay_one(fams, check);
   const std::string only = args.get("only");
   for (auto& f : fams)
